@@ -17,7 +17,20 @@ fn mk(neg: bool, mag: u128) -> Integer {
     }
 }
 
+/// evaluate a total function of the API; a panic is an outcome ("panic"), never a harness failure
+fn guard<F: FnOnce() -> Value>(f: F) -> Value {
+    match catch_unwind(AssertUnwindSafe(f)) {
+        Ok(v) => v,
+        Err(_) => json!("panic"),
+    }
+}
+
 fn desc(x: &Integer) -> Value {
+    let x = *x;
+    guard(move || desc_inner(&x))
+}
+
+fn desc_inner(x: &Integer) -> Value {
     let zero = Integer::zero();
     json!({
         "n": x.negative,
@@ -54,10 +67,10 @@ pub fn record(an: bool, am: u128, bn: bool, bm: u128) -> Value {
         Ok(v) => desc(&v),
         Err(_) => json!("err"),
     };
-    let s = a.to_string();
-    let parsed = Integer::from_str(&s);
-    let ser = serde_json::to_string(&a).ok();
-    let de: Option<Integer> = ser.as_ref().and_then(|t| serde_json::from_str::<Integer>(t).ok());
+    let s = catch_unwind(AssertUnwindSafe(|| a.to_string())).unwrap_or_else(|_| "panic".to_string());
+    let parsed = catch_unwind(AssertUnwindSafe(|| Integer::from_str(&s))).unwrap_or_else(|_| Integer::from_str("not a number"));
+    let ser = catch_unwind(AssertUnwindSafe(|| serde_json::to_string(&a).ok())).unwrap_or(None);
+    let de: Option<Integer> = catch_unwind(AssertUnwindSafe(|| ser.as_ref().and_then(|t| serde_json::from_str::<Integer>(t).ok()))).unwrap_or(None);
     // assignment forms
     let add_assign = unchecked(|| {
         let mut x = a;
@@ -96,21 +109,21 @@ pub fn record(an: bool, am: u128, bn: bool, bm: u128) -> Value {
         "csub": chk(a.checked_sub(b).map_err(|e| e.to_string())),
         "cmul": chk(a.checked_mul(b).map_err(|e| e.to_string())),
         "cdiv": chk(a.checked_div(b).map_err(|e| e.to_string())),
-        "neg": desc(&a.invert_sign()),
-        "abs": desc(&a.abs()),
-        "cmp": ord(a.cmp(&b)),
-        "pcmp": a.partial_cmp(&b).map(ord),
-        "eq": a == b,
-        "lt": a < b,
-        "le": a <= b,
-        "gt": a > b,
-        "ge": a >= b,
+        "neg": guard(|| desc(&a.invert_sign())),
+        "abs": guard(|| desc(&a.abs())),
+        "cmp": guard(|| json!(ord(a.cmp(&b)))),
+        "pcmp": guard(|| json!(a.partial_cmp(&b).map(ord))),
+        "eq": guard(|| json!(a == b)),
+        "lt": guard(|| json!(a < b)),
+        "le": guard(|| json!(a <= b)),
+        "gt": guard(|| json!(a > b)),
+        "ge": guard(|| json!(a >= b)),
         "str": s,
         "parse_ok": parsed.is_ok(),
-        "parse_eq": parsed.as_ref().map(|p| *p == a).unwrap_or(false),
+        "parse_eq": guard(|| json!(parsed.as_ref().map(|p| *p == a).unwrap_or(false))),
         "parse_desc": parsed.as_ref().map(desc).unwrap_or(Value::Null),
         "serde": ser,
-        "serde_eq": de.map(|p| p == a).unwrap_or(false),
+        "serde_eq": guard(|| json!(de.map(|p| p == a).unwrap_or(false))),
     })
 }
 
